@@ -599,7 +599,7 @@ def main():
             if self.is_point_inside(from) || self.is_point_inside(to) { return true; }
             if self.lower == self.upper {
                 return math::side_query(from, to, self.lower).is_on_line()
-                    && math::project_point(from, to, self.lower).is_on_edge();
+                    && math::is_collinear_point_on_segment(from, to, self.lower);
             }
             if from.x.max(to.x) < self.lower.x || from.x.min(to.x) > self.upper.x
                 || from.y.max(to.y) < self.lower.y || from.y.min(to.y) > self.upper.y { return false; }
@@ -622,8 +622,7 @@ def main():
         w("  if rect_is_empty lower upper then false")
         w("  else if rect_is_point_inside lower upper from_ || rect_is_point_inside lower upper to_ then true")
         w("  else if lower == upper then")
-        w("    is_on_line (side_query from_ to_ lower) &&")
-        w("      is_on_edge (project_point from_ to_ lower).1 (project_point from_ to_ lower).2")
+        w("    is_on_line (side_query from_ to_ lower) && is_collinear_point_on_segment from_ to_ lower")
         w("  else if FL.lt (max from_.x to_.x) lower.x || FL.gt (min from_.x to_.x) upper.x ||")
         w("      FL.lt (max from_.y to_.y) lower.y || FL.gt (min from_.y to_.y) upper.y then false")
         w("  else")
